@@ -4,6 +4,7 @@ import (
 	"bytes"
 	"crypto/sha256"
 	"fmt"
+	"os"
 	"sort"
 	"sync"
 	"sync/atomic"
@@ -858,6 +859,14 @@ func MainC25() {
 	seen := newDigestSet()
 	t0 := time.Now()
 	rows, states, trans, _, _, ex := runScenarios(sink, ScenariosC25A(r.Thorough()), C25Hook(sink, &st, seen))
+	// part 1b: completeness after first-key deletions (c25del.go)
+	var ds DelStats
+	for _, sc := range ScenariosC25DelA() {
+		if sink.Expired() {
+			break
+		}
+		CheckDeletionProofs(sink, &st, &ds, sc, true, true, 2)
+	}
 	wallA := time.Since(t0).Seconds()
 	if hit {
 		ex = false
@@ -870,6 +879,19 @@ func MainC25() {
 	if st.Member.Load() == 0 || st.NonMember.Load() == 0 || st.MutRejectedVerify.Load() == 0 {
 		r.HarnessError("vacuous: no membership / non-membership proofs or no rejected mutations")
 	}
+	if ex && r.Violations() == 0 && os.Getenv("VERIF_ONLY") == "" { // complete run: the deletion part must have met every class at both scales
+		vacuityGuard(r, ds.Classes, needDelClasses...)
+		hb := map[string]int64{}
+		if mb, ok := covB["deletion_classes"].(map[string]any); ok {
+			for k := range mb {
+				hb[k] = CovInt(mb, k)
+			}
+		}
+		vacuityGuard(r, hb, needDelClasses...)
+	}
+	for k, n := range ds.Classes {
+		r.OutcomeN("deletions:"+k, n)
+	}
 	r.OutcomeN("proof_mutation_rejected_at_decode", st.MutRejectedDecode.Load())
 	r.OutcomeN("proof_mutation_rejected_at_verify", st.MutRejectedVerify.Load())
 	r.OutcomeN("proof_mutation_decodes_to_identical_proof", st.MutIdentical.Load())
@@ -879,6 +901,7 @@ func MainC25() {
 	r.Sample(map[string]any{"tree_proofs": "every committed distinct tree reached by BFS x every probe key (present/absent/before-first/after-last/between neighbours)"})
 	r.Assumptions = []string{
 		"tree states: BFS over {Set,Remove,SaveVersion} from prefill shapes, every distinct committed (shape, contents) gets its proofs checked once",
+		"deletions: from every multi-leaf start shape, the trees after Remove(first key of leaf i)+SaveVersion for EVERY non-first leaf i, and after a second such removal (scale A: every leaf j; scale B: the leaf holding the successor); completeness for every universe key (scale A, universe with an absent key in every gap; hot and reopened) resp. the three leaves around each deletion + every leaf-boundary gap + first/last key (big B=32 trees); a complete run must have seen removals without rebalancing, with leaf merge and with leaf borrow, and absent probes of all kinds (just-deleted key, gap across a leaf boundary, between the previous leaf and the deleted first key) at both scales",
 		"scale A: B=4/miniMerkleDepth=2 and BptreeSpec.MinDepth 5->2 (overlay subst, otherwise no B=4 proof could satisfy the spec); scale B: unscaled B=32 code with the real BptreeSpec",
 		"a non-membership proof is expected to verify for exactly the keys strictly inside the proven gap (all absent) and for no other key",
 		"byte mutations: bit 0 and bit 7 of every byte of the protobuf-encoded proof; a mutant that decodes to the identical proof (unknown/ignored field, or the never-read NonExistenceProof.Key) must keep the correct verdict",
@@ -890,7 +913,8 @@ func MainC25() {
 			"states": states + CovInt(covB, "states"), "transitions": trans + CovInt(covB, "transitions"),
 			"depth":  map[string]any{"scaleA": rows, "scaleB": covB["scenarios"]},
 			"scaleA": map[string]any{"B": pb.B, "trees_with_proofs_checked": st.Trees.Load(), "membership_proofs": st.Member.Load(), "non_membership_proofs": st.NonMember.Load(),
-				"negative_statements": st.Negative.Load(), "proof_byte_mutations": st.Mutations.Load(), "wall_s": wallA},
+				"negative_statements": st.Negative.Load(), "proof_byte_mutations": st.Mutations.Load(), "wall_s": wallA,
+				"deletion_trees": ds.Trees.Load(), "deletion_membership_proofs": ds.Member.Load(), "deletion_non_membership_proofs": ds.NonMember.Load(), "deletion_classes": ds.Classes},
 			"scaleB":      covB,
 			"simple_list": map[string]any{"lengths": "0..33", "evaluations": evL},
 			"simple_map":  map[string]any{"subsets": 32, "evaluations": evM},
@@ -913,9 +937,25 @@ func ChildC25(sink Sink) map[string]any {
 	var st C25Stats
 	seen := newDigestSet()
 	rows, states, trans, _, _, ex := runScenarios(sink, scs, C25Hook(sink, &st, seen))
+	var ds DelStats
+	if del, err := ScenariosC25DelB(sink.Thorough()); err != nil {
+		sink.Violation("B32 prefill failed: "+err.Error(), map[string]any{"error": err.Error()})
+	} else {
+		for _, sc := range del {
+			if sink.Expired() {
+				ex = false
+				break
+			}
+			CheckDeletionProofs(sink, &st, &ds, sc, false, false, 1)
+		}
+	}
+	for k, n := range ds.Classes {
+		sink.OutcomeN("deletions:"+k, n)
+	}
 	var stMS C25Stats
 	evS := CheckMultiStore(sink, &stMS)
 	return map[string]any{"B": pb.B, "states": states, "transitions": trans, "trees_with_proofs_checked": st.Trees.Load(), "membership_proofs": st.Member.Load(),
+		"deletion_trees": ds.Trees.Load(), "deletion_membership_proofs": ds.Member.Load(), "deletion_non_membership_proofs": ds.NonMember.Load(), "deletion_classes": ds.Classes,
 		"non_membership_proofs": st.NonMember.Load(), "negative_statements": st.Negative.Load(), "proof_byte_mutations": st.Mutations.Load(),
 		"mutations_identical_after_decode": st.MutIdentical.Load(), "multistore_evaluations": evS,
 		"exhaustive_to_depth": ex, "scenarios": rows}
